@@ -1095,6 +1095,46 @@ theorem installSeq_read (T : Tables) (root : Option Path) (p : Path) (hp : ¬ re
       | none => simp only []; rw [ih inps fs' (fun c h => hall c (List.mem_cons_of_mem _ h)), h1]
       | some err => exact h1
 
+theorem passes_of_rootPassed (T : Tables) (h : T.rootPassed = true) (a b : String) : T.passes a b = true := by
+  simp only [Tables.rootPassed, Bool.and_eq_true] at h
+  unfold Tables.passes
+  cases hf : T.frontCalls.find? (fun c => c.1 == a && c.2.1 == b) with
+  | none => rfl
+  | some c => exact List.all_eq_true.mp h.2 c (List.mem_of_find?_eq_some hf)
+
+/-- `install_files(…, root)` touches nothing outside `resolve root` when every front-end call hands the root on -/
+theorem installFiles_read (T : Tables) (hR : T.rootPassed = true) (root : Option Path) (p : Path)
+    (hp : ¬ resolve root <+: p) : ∀ (cfg : List (InstallFn × List UpdInput)) (fs : FS),
+    (installFiles T cfg root fs).1.read p = fs.read p := by
+  have hI : ∀ i, ∀ c ∈ T.installCalls i, c.2 = true := by
+    intro i
+    simp only [Tables.rootPassed, Bool.and_eq_true] at hR
+    cases i <;> exact List.all_eq_true.mp (List.all_eq_true.mp hR.1 _ (by simp [allInstall]))
+  intro cfg
+  induction cfg with
+  | nil => intro fs; rfl
+  | cons c cs ih =>
+    intro fs
+    obtain ⟨i, inps⟩ := c
+    simp only [installFiles, passes_of_rootPassed T hR, if_true]
+    have h1 : (install T i inps root fs).1.read p = fs.read p := installSeq_read T root p hp _ inps fs (hI i)
+    rcases hu : install T i inps root fs with ⟨fs', o⟩
+    rw [hu] at h1
+    cases o with
+    | none => simp only []; rw [ih fs', h1]
+    | some err => exact h1
+
+theorem populate_read (T : Tables) (hR : T.rootPassed = true) (cfg : List (InstallFn × List UpdInput)) (wl : UpdInput)
+    (root : Option Path) (fs : FS) (p : Path) (hp : ¬ resolve root <+: p) :
+    (populate T cfg wl root fs).1.read p = fs.read p := by
+  simp only [populate, passes_of_rootPassed T hR, if_true]
+  have h1 := installFiles_read T hR root p hp cfg fs
+  rcases hu : installFiles T cfg root fs with ⟨fs', o⟩
+  rw [hu] at h1
+  cases o with
+  | none => simp only []; rw [update_read T .wavelength wl root fs' p hp, h1]
+  | some err => exact h1
+
 /-! ## add_* and install_* in terms of update_* -/
 
 theorem addMatches_of (T : Tables) (h : T.addMatches = true) (a : AddFn) :
